@@ -801,12 +801,17 @@ def oracle_objects(evs, term, case, findings=None):
             code = "atomic" if (op[0] == "a" and len(op) > 1 and op[1].isdigit()) else op[:2]
             tag = "F35" if stale_waiter(t) else None
             if code in NONBLOCKING:
-                out.append(("C18" if tag else "C03", "deadlock reported with task %d blocked, but its next operation '%s' cannot block: the task was not waiting for anything" % (t, op), tag))
+                msg_ = "deadlock reported with task %d blocked, but its next operation '%s' cannot block: the task was not waiting for anything" % (t, op)
+                out.append(("C18" if tag else "C03", msg_, tag))
+                if tag:
+                    out.append(("C03x", msg_, tag))        # the same false deadlock, for the check of the deadlock verdicts (C03)
             elif code == "aw":
                 h = int(op[2:])
                 tgt = aspawned.get(t, [])
                 if h < len(tgt) and tgt[h] in ended:
-                    out.append(("C17", "deadlock reported with task %d blocked awaiting the JoinHandle of task %d, which has finished: the wake-up of its completion was lost" % (t, tgt[h]), tag))
+                    msg_ = "deadlock reported with task %d blocked awaiting the JoinHandle of task %d, which has finished: the wake-up of its completion was lost" % (t, tgt[h])
+                    out.append(("C17", msg_, tag))
+                    out.append(("C03x", msg_, tag))
     return out
 
 
